@@ -16,16 +16,22 @@
  * they must return false and change nothing - the read that follows has to
  * give the same tree.  In 1/3 of the cases the parser object then gets another
  * format (accepted set_format) and a new tree rendered in that style.
+ * open() of unreadable targets, switches between two renderings, and the file
+ * saved again with another tree between reads (rewritten in place, new file
+ * renamed over the name, unlinked and created again): reset() + read() must
+ * give what is in the file now.
  */
 #include <cstdio>
 #include <cstdlib>
 #include <cstring>
 #include <unistd.h>
+#include <string>
 #include <dirent.h>
 
 #include "node.h"
 #include "config.h"
 #include "parse.h"
+#include "layout.h"
 
 #include "c09_tree.h"
 #include "vf.h"
@@ -43,7 +49,7 @@ public:
 	}
 };
 
-static char fname[64], fname2[64], fmissing[64];
+static char fname[64], fname2[64], fmissing[64], ftmp[64];
 
 /* open descriptors of the process */
 static size_t count_fds(void)
@@ -56,7 +62,7 @@ static size_t count_fds(void)
 	return n;
 }
 
-uint64_t vf_cases(void) { return vf_thorough ? 500000 : 40000; }
+uint64_t vf_cases(void) { return vf_thorough ? 400000 : 30000; }
 
 /* description with an unknown style character and delimiters / lists of another format, exact-size block */
 static char *refused_format(vf_rng *r, const format *active, size_t *size)
@@ -78,6 +84,57 @@ static char *refused_format(vf_rng *r, const format *active, size_t *size)
 	d = static_cast<char *>(vf_xalloc(*size));
 	memcpy(d, buf, *size);
 	return d;
+}
+
+/* mpt::layout::reset() goes through the same config_parser::reset(): the file saved again must be what load() sees */
+static void layout_reset_check(vf_rng *r)
+{
+	static const char *const types[] = { "graph", "text", "world", "line", "axis" };
+	std::string text[2], want[2];
+	mpt::layout lay;
+	FILE *fp;
+	int method = 1 + (int) vf_below(r, 3);
+
+	for (int v = 0; v < 2; v++) {
+		int n = vf_range(r, 1, 4);
+		for (int i = 0; i < n; i++) {
+			char name[32];
+			const char *t = types[vf_below(r, 5)];
+			snprintf(name, sizeof(name), "%c%c%u_%d", t[0], 'a' + v, (unsigned) vf_below(r, 1000), i);
+			text[v] += t; text[v] += ' '; text[v] += name; text[v] += " {\n    title = X;\n}\n";
+			if (i) want[v] += ' ';
+			want[v] += name;
+		}
+	}
+	if (!(fp = fopen(fname, "wb")) || fwrite(text[0].data(), 1, text[0].size(), fp) != text[0].size() || fclose(fp)) vf_inconclusive("cannot write %s", fname);
+	vf_at("layout::open");
+	VF_CHECK(lay.open(fname), "model:layout-reset:open-failed", "layout::open(%s) failed", fname);
+	for (int v = 0; v < 2; v++) {
+		std::string got;
+		bool ok;
+		if (v) {
+			if (method == 2) {
+				if (!(fp = fopen(ftmp, "wb")) || fwrite(text[1].data(), 1, text[1].size(), fp) != text[1].size() || fclose(fp) || rename(ftmp, fname)) vf_inconclusive("cannot replace %s", fname);
+			} else {
+				if (method == 3 && unlink(fname)) vf_inconclusive("cannot unlink %s", fname);
+				if (!(fp = fopen(fname, "wb")) || fwrite(text[1].data(), 1, text[1].size(), fp) != text[1].size() || fclose(fp)) vf_inconclusive("cannot write %s", fname);
+			}
+			vf_at("layout::reset");
+			vf_count("layout::reset", 1);
+			VF_CHECK(lay.reset(), "model:layout-reset:reset-failed", "layout::reset() failed after the file was saved again (method %d)", method);
+		}
+		vf_at("layout::load");
+		ok = lay.load(0);
+		VF_CHECK(ok, "model:layout-reset:load-failed", "layout::load() %s returned false; file: %s", v ? "after reset()" : "of the first file", text[v].c_str());
+		for (const auto &it : lay.items()) {
+			if (!got.empty()) got += ' ';
+			got += it.name() ? it.name() : "";
+		}
+		VF_CHECK(got == want[v], v ? "model:layout-reset:stale-items" : "model:layout-reset:items",
+		         "layout %s holds items [%s], the file has [%s] (file %s)", v ? "after reset() + load()" : "after load()", got.c_str(), want[v].c_str(),
+		         method == 1 ? "rewritten in place" : method == 2 ? "replaced by rename" : "unlinked and created again");
+	}
+	vf_count(method == 2 ? "monitor:layout-reset-after-rename-replace" : "monitor:layout-reset-after-rewrite", 1);
 }
 
 void vf_case(uint64_t idx, vf_rng *r)
@@ -113,6 +170,7 @@ void vf_case(uint64_t idx, vf_rng *r)
 		snprintf(fname, sizeof(fname), "c09cxx-%ld.conf", (long) getpid());
 		snprintf(fname2, sizeof(fname2), "c09cxx-%ld-b.conf", (long) getpid());
 		snprintf(fmissing, sizeof(fmissing), "c09cxx-%ld-missing.conf", (long) getpid());
+		snprintf(ftmp, sizeof(ftmp), "c09cxx-%ld.tmp", (long) getpid());
 	}
 
 	for (int round = 0; round < rounds; round++) {
@@ -199,7 +257,56 @@ void vf_case(uint64_t idx, vf_rng *r)
 				cmp c;
 
 				int refused_open = 0, must_reopen = 0;
+				int replaced = 0;       /* 1 rewritten in place, 2 new file renamed over the name, 3 unlinked and created again */
 				char opendesc[64] = "";
+
+				/* the file is saved again with other content while the parser has it open */
+				if (pass && vf_chance(r, 1, 3)) {
+					static const char *const how_name[] = { "", "rewritten in place", "replaced by rename", "unlinked and created again" };
+					const char *name = (cur == &ro2.out) ? fname2 : fname, *oname = (cur == &ro2.out) ? fname : fname2;
+					const bytes *otext;
+					gen g2;
+					c09_t_free(root);
+					root = c09_t_new(1);
+					memset(&g2, 0, sizeof(g2));
+					g2.f = f; g2.sect = sect; g2.opt = opt;
+					g2.maxdepth = vf_range(r, 0, 4);
+					g2.huge = 1;            /* no further 64k values: keeps the step cheap */
+					c09_gen_children(r, &g2, root, 0);
+					c09_t_fp(root);
+					free(ro.out.d); free(ro2.out.d);
+					deco = *r;
+					memset(&ro, 0, sizeof(ro));
+					ro.f = f; ro.mode = (int) vf_below(r, 3); ro.r = &deco;
+					c09_render_doc(&ro, root);
+					memset(&ro2, 0, sizeof(ro2));
+					ro2.f = f; ro2.mode = (ro.mode + 1 + (int) vf_below(r, 2)) % 3; ro2.r = &deco;
+					c09_render_doc(&ro2, root);
+					otext = (cur == &ro2.out) ? &ro.out : &ro2.out;
+
+					replaced = 1 + (int) vf_below(r, 3);
+					if (replaced == 2) {
+						if (!(fp = fopen(ftmp, "wb")) || fwrite(cur->d, 1, cur->n, fp) != cur->n || fclose(fp) || rename(ftmp, name)) {
+							vf_inconclusive("cannot replace %s by rename", name);
+						}
+					} else {
+						if (replaced == 3 && unlink(name)) vf_inconclusive("cannot unlink %s", name);
+						if (!(fp = fopen(name, "wb")) || fwrite(cur->d, 1, cur->n, fp) != cur->n || fclose(fp)) {
+							vf_inconclusive("cannot write %s", name);
+						}
+					}
+					if (!(fp = fopen(oname, "wb")) || fwrite(otext->d, 1, otext->n, fp) != otext->n || fclose(fp)) {
+						vf_inconclusive("cannot write %s", oname);
+					}
+					snprintf(desc, sizeof(desc), "%s fmt=%s%s%s flags=%s, file %s with a new tree of %zu nodes", c09_style_name[f->style],
+					         f->str ? "\"" : "", f->str ? f->str : "NULL", f->str ? "\"" : "", fl, how_name[replaced], g2.nodes);
+					vf_count(replaced == 1 ? "replace:in-place" : replaced == 2 ? "replace:rename" : "replace:unlink-recreate", 1);
+					if (vf_logging) {
+						vf_log("%s, %zu bytes:", desc, cur->n);
+						fwrite(cur->d, 1, cur->n > 4000 ? 4000 : cur->n, stderr);
+						fprintf(stderr, "\n----\n");
+					}
+				}
 
 				/* open() of something that cannot be opened: false, and nothing changes */
 				if (vf_chance(r, 1, 3)) {
@@ -228,7 +335,7 @@ void vf_case(uint64_t idx, vf_rng *r)
 					must_reopen = 1;
 				}
 				if (pass || must_reopen) {
-					if (must_reopen || vf_chance(r, 1, 4)) {
+					if (must_reopen || (!replaced && vf_chance(r, 1, 4))) {
 						int other = vf_chance(r, 1, 2);
 						phase = "cxx-reopen";
 						how = 2;
@@ -248,6 +355,7 @@ void vf_case(uint64_t idx, vf_rng *r)
 					}
 				}
 				if (refused_open) phase = "cxx-after-refused-open";
+				if (replaced) phase = how == 1 ? "cxx-reset-after-replace" : "cxx-reopen-after-replace";
 				/* a refused format must leave the parser as it is */
 				if (vf_chance(r, 2, 5)) {
 					for (int k = vf_range(r, 1, 2); k > 0; k--) {
@@ -261,7 +369,7 @@ void vf_case(uint64_t idx, vf_rng *r)
 						vf_xfree(bad, size);
 					}
 					refused = 1;
-					if (!refused_open) phase = "cxx-after-refused-format";
+					if (!refused_open && !replaced) phase = "cxx-after-refused-format";
 				}
 				memset(&c, 0, sizeof(c));
 				c.phase = phase;
@@ -295,6 +403,11 @@ void vf_case(uint64_t idx, vf_rng *r)
 					if (refused_open) vf_count("monitor:trees-equal:read-after-refused-open", 1);
 					if (refused_open && how == 1) vf_count("monitor:trees-equal:reset+read-after-refused-open", 1);
 					if (cur == &ro2.out) vf_count("monitor:trees-equal:other-file", 1);
+					if (replaced && how == 1) {
+						vf_count(replaced == 1 ? "monitor:trees-equal:reset-after-rewrite-in-place" : replaced == 2 ? "monitor:trees-equal:reset-after-rename-replace"
+						         : "monitor:trees-equal:reset-after-unlink-recreate", 1);
+					}
+					else if (replaced) vf_count("monitor:trees-equal:reopen-after-replace", 1);
 					if (round) vf_count("monitor:trees-equal:after-format-change", 1);
 					if (reuse_node) vf_count("state:read-into-used-node", 1);
 				}
@@ -314,6 +427,7 @@ void vf_case(uint64_t idx, vf_rng *r)
 		free(ro2.out.d);
 		c09_t_free(root);
 	}
+	if (vf_chance(r, 1, 6)) layout_reset_check(r);
 	unlink(fname);
 	unlink(fname2);
 	}
